@@ -89,7 +89,7 @@ def run(ctx):
                 return None
             if l not in named:
                 ds = [d for d in b.defs().get(l, []) if not b.is_cleanup(d[0])]
-                named[l] = len(ds) == 1 and ds[0][1] == "term" and b.locals[l]["ty"].startswith("std::vec::Vec<f64")
+                named[l] = len(ds) == 1 and b.locals[l]["ty"].startswith("std::vec::Vec<f64")
             if named[l]:
                 return eb.project(("var", l, b.local_name(l)), pl["proj"])
             return None
@@ -272,6 +272,13 @@ def run(ctx):
         gain = {}
         scale = False
         for bb, i, st, tgt, root, chain, val in sts:
+            # element-wise form: for c in mgc.iter_mut().skip(1) { *c *= -(stage as f64) }
+            if tgt[0] == "field" and tgt[2] == "0" and tgt[1][0] == "variant" and tgt[1][1][0] == "call" and tgt[1][1][1] == "<std::iter::Skip<I> as std::iter::Iterator>::next":
+                sk = tgt[1][1][2][0]
+                if sk[0] == "call" and sk[1].endswith("Iterator::skip") and sk[2][1][0] == "c" and sk[2][1][1] == 1 and "ignorm(" in show(sk[2][0]):
+                    if val[0] == "bin" and val[1] == "Mul" and tgt in (val[2], val[3]) and "Neg((self.stage as f64))" in show(val):
+                        scale = True
+                continue
             if tgt[0] != "idx":
                 continue
             if tgt[2][0] == "c" and tgt[2][1] == 0:
@@ -279,6 +286,21 @@ def run(ctx):
                 for gd in paths.guards(g, bb, eb):
                     if gd[0] in ("true", "false") and show(gd[1]) == "self.use_log_gain":
                         pol = gd[0]
+                if pol is None and val[0] == "var" and isinstance(val[1], int) and not g.local_name(val[1]):
+                    # `lpc[0] = if self.use_log_gain { .. } else { .. }`: the merged temporary's definitions
+                    for dbb, didx, ditem in g.defs().get(val[1], []):
+                        if didx == "term" and not g.is_cleanup(dbb):
+                            v2 = eb.at(dbb).call(ditem)
+                        elif didx != "term" and not g.is_cleanup(dbb):
+                            v2 = eb.at(dbb, didx).rvalue(ditem["rv"])
+                        else:
+                            continue
+                        p2 = None
+                        for gd in paths.guards(g, dbb, eb):
+                            if gd[0] in ("true", "false") and show(gd[1]) == "self.use_log_gain":
+                                p2 = gd[0]
+                        gain[p2] = show(v2)
+                    continue
                 gain[pol] = show(val)
             else:
                 # lpc[i] = lpc[i] * -(stage as f64) over i in 1..len
